@@ -22,7 +22,7 @@ func (Prop) SelfTest() error              { return padref.SelfTest() }
 func (Prop) Rule() string {
 	return "E2, every declared space is enumerated completely (no sampling, same space in both tiers except part C). " +
 		"A (pad/roundtrip): 4 schemes x all block sizes 1..255 x all message lengths 0..3*bs+1 x 11 endings (last byte or last whole block set to 00, 80, 01, bs, ff; plain counting content) " +
-		"x 9 capacities (cap=len, len+1, ample, and exactly / one below / one above the padded length of the trailing schemes and of method 3; spare bytes non-zero): Pad must not panic, must equal the reference form byte for byte (method 3: first block = 8*len as a bs-byte big-endian integer, judged only when it fits), " +
+		"(every result is overwritten by the harness afterwards, so a buffer shared between results shows up in a later call) x 9 capacities (cap=len, len+1, ample, and exactly / one below / one above the padded length of the trailing schemes and of method 3; spare bytes non-zero): Pad must not panic, must equal the reference form byte for byte (method 3: first block = 8*len as a bs-byte big-endian integer, judged only when it fits), " +
 		"must leave src[:len] untouched (method 3: only when it had to allocate), and Unpad of the documented padded string must return exactly the message. " +
 		"B (accept set): bs in {1,2,3,4}, ALL strings of length 0..{4,6,7,8} over {00,01,02,03,04,80,ff} (method 3: {00,01,08,10,18,20,80,ff} so that valid length blocks occur): " +
 		"Unpad accepts s as m iff Pad_ref(m) = s; everything else, every non-multiple length and the empty string must be an error; no panic. " +
@@ -372,6 +372,10 @@ func partA(t *engine.T, sc scheme, bs int) {
 				}
 				if (sc.id != padref.M3 || cm == 0) && !bytes.Equal(full[:n], m) {
 					t.Fail(name+"/pad-modifies-source", "%s bs=%d len=%d cap=%s: Pad changed src[:len]: %s -> %s", name, bs, n, capNames[cm], engine.Hex(m), engine.Hex(full[:n]))
+				}
+				// the caller owns the result: write over it (as in-place encryption would); a later Pad must not see this
+				for i := range out {
+					out[i] = 0xA5
 				}
 			}
 			if fits {
